@@ -733,6 +733,40 @@ func c12R3(env *c06Env) {
 			return (be.Op == token.NEQ && f.Truth) || (be.Op == token.EQL && !f.Truth)
 		})
 	}
+	// edges that imply `path == 0`
+	zeroEdges := func(path string) map[core.EdgeRef]bool {
+		return c06EdgesWhere(g, func(from int, f c06Fact) bool {
+			be, ok := ast.Unparen(f.Expr).(*ast.BinaryExpr)
+			if !ok {
+				return false
+			}
+			k, isC := c06ConstInt(info, be.Y)
+			if !isC || k != 0 {
+				return false
+			}
+			p, ok := encPath(from, be.X)
+			if !ok || p != path {
+				return false
+			}
+			return (be.Op == token.EQL && f.Truth) || (be.Op == token.NEQ && !f.Truth)
+		})
+	}
+	// an announcement that depends on field `path` must not additionally depend on another SSRC field of the
+	// encoding (e.g. the FEC-FR group chained as `else if` behind the RTX test is dropped when both are enabled)
+	foreignGuard := func(node int, path string) string {
+		for _, q := range []string{"SSRC", "RTX.SSRC", "FEC.SSRC"} {
+			if q == path {
+				continue
+			}
+			if ze := zeroEdges(q); len(ze) > 0 && g.DominatedByEdges(node, ze) {
+				return "only emitted when " + q + " == 0"
+			}
+			if ne := nonZeroEdges(q); len(ne) > 0 && g.DominatedByEdges(node, ne) {
+				return "only emitted when " + q + " != 0"
+			}
+		}
+		return ""
+	}
 	seenSrc := map[string]int{}
 	seenGrp := map[string]int{}
 	nMsid := 0
@@ -771,6 +805,8 @@ func c12R3(env *c06Env) {
 					r.Fail(rule, key, pos, "the source's msid labels are not (track.StreamID(), track.ID()) of the sender's track, in that order")
 				case path != "SSRC" && !g.DominatedByEdges(nd.ID, nonZeroEdges(path)):
 					r.Fail(rule, key, pos, "the "+path+" source is announced without a `"+path+" != 0` test (a disabled RTX/FEC stream is announced with SSRC 0)")
+				case foreignGuard(nd.ID, path) != "":
+					r.Fail(rule, key, pos, "the "+path+" source is "+foreignGuard(nd.ID, path)+": an enabled stream of the sender is not announced")
 				default:
 					r.OK(rule, key, pos, "ssrc from the sender's encoding, labels from its track")
 				}
@@ -809,6 +845,8 @@ func c12R3(env *c06Env) {
 					r.Fail(rule, key, pos, "the ssrc-group is not added to the section being built")
 				case !g.DominatedByEdges(nd.ID, nonZeroEdges(want)):
 					r.Fail(rule, key, pos, "the "+sem+" group is emitted without a `"+want+" != 0` test")
+				case foreignGuard(nd.ID, want) != "":
+					r.Fail(rule, key, pos, "the "+sem+" group is "+foreignGuard(nd.ID, want)+": with RTX and FEC both enabled the group is dropped although its SSRC is still announced as a source")
 				default:
 					r.OK(rule, key, pos, "group members from the sender's encoding")
 				}
